@@ -183,7 +183,7 @@ def ob_step_sequence(sizes):
         c = load_crate(CRATE)
         dom = mk_bv()
         def run(ctx):
-            ex = Ex(c, dom, ctx, summaries=bv_summaries(dom))
+            ex = Ex(c, dom, ctx, summaries=bv_summaries(dom)); ex.merge_pure = True
             st, s, r1, r2, x, named = sym_state(dom)
             outs = []
             for n in sizes:
@@ -229,7 +229,7 @@ def ob_init():
         c = load_crate(CRATE)
         dom = mk_bv()
         def run(ctx):
-            ex = Ex(c, dom, ctx, summaries=bv_summaries(dom))
+            ex = Ex(c, dom, ctx, summaries=bv_summaries(dom)); ex.merge_pure = True
             k = [dom.sym("k%d" % i, "u8") for i in range(16)]
             iv = [dom.sym("iv%d" % i, "u8") for i in range(16)]
             kc = Cell(Agg(list(k), name="array"), "key"); ic = Cell(Agg(list(iv), name="array"), "iv")
